@@ -459,6 +459,14 @@ impl Scenario for C17Bridge {
                             _ => b'0',
                         };
                         lines.push((l, "bad-checksum-or-length", Some(None)));
+                    } else if cx.chance(1, 3) && (1..body).step_by(2).any(|q| l[q] == b'0') {
+                        // a sign character where a digit pair (or the address field) begins with a zero:
+                        // "+3" is 3 to a lenient number parser, and the checksum still fits -- but it is no hex
+                        let zs: Vec<usize> = (1..body).step_by(2).filter(|q| l[*q] == b'0').collect();
+                        let q = zs[cx.draw(zs.len() as u64) as usize];
+                        l[q] = b'+';
+                        cx.probe("frame_line_with_a_sign_character_for_a_leading_zero");
+                        lines.push((l, "sign-character", Some(None)));
                     } else {
                         const NOT_HEX: &[u8] = b"GHIJKLMNOPQRSTUVWXYZghijklmnopqrstuvwxyz /@`.;-_#\x00\x7f\xb1\xc1";
                         l[p] = *cx.pick(NOT_HEX);
